@@ -17,34 +17,22 @@ from .common import HEADER, FOOTER, contract, extract_struct
 from .u11_text_safety import str_shims, lit_axioms, INDEX_SHIMS
 
 
-def build():
-    u = Unit("u15_classifiers")
-    u.raw(HEADER, "header")
-    st = u.source("src/stacktrace.rs")
-    extract_struct(u, st, "StackFrame")
-    extract_struct(u, st, "Throwable")
-    u.raw(contract("text_model.rs"), "text_model")
-
-    pt = st.fn("parse_throwable")
-    pf = st.fn("parse_frame")
-    # literal bytes: every string literal in the two functions (starts_with / splitn / split patterns)
-    lits = []
-    for f in (pt, pf):
-        for m in re.finditer(r'"((?:[^"\\]|\\.)*)"', f.orig):
-            if m.group(0) not in lits:
-                lits.append(m.group(0))
-    ax = []
-    for i, lit in enumerate(lits):
-        val = bytes(lit[1:-1], "utf-8").decode("unicode_escape").encode("utf-8")
-        ax.append("#[verifier::external_body]\npub proof fn axiom_lit_%d() ensures sb(%s) == seq![%s] {}\n" % (i, lit, ", ".join("%du8" % b for b in val)))
-    u.raw("".join(ax), "literal axioms (generated from the literals in the extracted text)")
-    ax_calls = " ".join("axiom_lit_%d();" % i for i in range(len(lits)))
-    u.raw("""
+SPEC_TEXT = """
 pub open spec fn lit_colon_space() -> Seq<u8> { seq![58u8, 32u8] }
 pub open spec fn lit_at() -> Seq<u8> { seq![97u8, 116u8, 32u8] }
 // where the line-number digits start in "at " class "." method "(" file ":" digits ")"
 pub open spec fn digits_start(f: StackFrame) -> int { 3 + sb(f.class).len() as int + 1 + sb(f.method).len() as int + 1 + sb(f.file->0).len() as int + 1 }
 // the specification of parse_throwable on the trimmed line t
+// the reference parser of frame lines: `at ` CLASS `.` METHOD `(` FILE `:` DIGITS `)` on the trimmed line t
+pub struct FrameParts { pub class: Seq<u8>, pub method: Seq<u8>, pub file: Seq<u8>, pub line: usize }
+pub open spec fn frame_spec(t: Seq<u8>) -> Option<FrameParts> {
+    if !(has_prefix8(t, lit_at()) && t.len() >= 1 && t[t.len() - 1] == 41u8) { None } else {
+        match split_first(t.subrange(3, t.len() - 1), 40u8) { None => None, Some((ms, fs)) =>
+        match split_last(ms, 46u8) { None => None, Some((c, m)) =>
+        match split_first(fs, 58u8) { None => None, Some((f, d)) =>
+        match spec_parse_usize(d) { None => None, Some(n) => Some(FrameParts { class: c, method: m, file: f, line: n }) } } } }
+    }
+}
 pub proof fn lemma_frame_reassemble(t: Seq<u8>, c: Seq<u8>, m: Seq<u8>, f: Seq<u8>, d: Seq<u8>)
     requires t.len() >= 4, t.subrange(0, 3) == lit_at(), t[t.len() - 1] == 41u8,
         t.subrange(3, t.len() - 1) == ((c + seq![46u8] + m) + seq![40u8]) + (f + seq![58u8] + d),
@@ -68,13 +56,38 @@ pub proof fn lemma_parts_do_not_contain(whole: Seq<u8>, a: Seq<u8>, sep: u8, b: 
 }
 pub open spec fn throwable_class(t: Seq<u8>) -> Seq<u8> { match first_occ(t, lit_colon_space()) { Some(i) => t.subrange(0, i), None => t } }
 pub open spec fn throwable_message(t: Seq<u8>) -> Option<Seq<u8>> { match first_occ(t, lit_colon_space()) { Some(i) => Some(t.subrange(i + 2, t.len() as int)), None => None } }
-""", "model")
+"""
+
+
+def build():
+    u = Unit("u15_classifiers")
+    u.raw(HEADER, "header")
+    st = u.source("src/stacktrace.rs")
+    extract_struct(u, st, "StackFrame")
+    extract_struct(u, st, "Throwable")
+    u.raw(contract("text_model.rs"), "text_model")
+
+    pt = st.fn("parse_throwable")
+    pf = st.fn("parse_frame")
+    # literal bytes: every string literal in the two functions (starts_with / splitn / split patterns)
+    lits = []
+    for f in (pt, pf):
+        for m in re.finditer(r'"((?:[^"\\]|\\.)*)"', f.orig):
+            if m.group(0) not in lits:
+                lits.append(m.group(0))
+    ax = []
+    for i, lit in enumerate(lits):
+        val = bytes(lit[1:-1], "utf-8").decode("unicode_escape").encode("utf-8")
+        ax.append("#[verifier::external_body]\npub proof fn axiom_lit_%d() ensures sb(%s) == seq![%s] {}\n" % (i, lit, ", ".join("%du8" % b for b in val)))
+    u.raw("".join(ax), "literal axioms (generated from the literals in the extracted text)")
+    ax_calls = " ".join("axiom_lit_%d();" % i for i in range(len(lits)))
+    u.raw(SPEC_TEXT, "model")
 
     # ---- parse_throwable ----
     pt.replace_all_re(r"pub\(crate\) ", "", "R4", "visibility")
     pt.ret("ret")
     pt.contracted = True
-    pt.props_all = ["C07"]
+    pt.props_all = ["C07", "C17"]
     pt.props_safety = ["C13"]
     str_shims(pt)
     n1 = pt.method_to_shim("splitn", "shim_str_splitn", why="str::splitn(n, pat) behind a shim (pieces by first occurrences; only n == 2 is modelled)")
@@ -97,12 +110,12 @@ pub open spec fn throwable_message(t: Seq<u8>) -> Option<Seq<u8>> { match first_
     pt.method_to_shim("next", "shim_pieces_next", borrow="&mut ", arg_ok=lambda a: a == "", why="iterator over the pieces: next piece")
     pt.method_to_shim("contains", "shim_str_contains_char", arg_ok=lambda a: a.startswith("'"), why="str::contains(char)")
     pt.contract("""    ensures
-        /*@L:throwable_class_is_the_text_before_the_first_colon_space:C07*/ ret is Some ==> sb(ret->0.class) == throwable_class(spec_trim(sb(line))),
-        /*@L:throwable_message_is_everything_after_the_first_colon_space:C07*/ ret is Some ==> match throwable_message(spec_trim(sb(line))) {
+        /*@L:throwable_class_is_the_text_before_the_first_colon_space:C07,C17*/ ret is Some ==> sb(ret->0.class) == throwable_class(spec_trim(sb(line))),
+        /*@L:throwable_message_is_everything_after_the_first_colon_space:C07,C17*/ ret is Some ==> match throwable_message(spec_trim(sb(line))) {
             Some(m) => ret->0.message is Some && sb(ret->0.message->0) == m,
             None => ret->0.message is None,
         },
-        /*@L:a_throwable_line_is_one_whose_class_has_no_space:C07*/ (ret is Some) == !throwable_class(spec_trim(sb(line))).contains(32u8),
+        /*@L:a_throwable_line_is_one_whose_class_has_no_space:C07,C17*/ (ret is Some) == !throwable_class(spec_trim(sb(line))).contains(32u8),
 """)
     pt.body_start("proof { %s axiom_first_occ(spec_trim(sb(line)), lit_colon_space()); axiom_split_all(spec_trim(sb(line)), lit_colon_space()); assert(lit_colon_space().len() == 2); }\n" % ax_calls)
     u.emit(pt)
@@ -111,7 +124,7 @@ pub open spec fn throwable_message(t: Seq<u8>) -> Option<Seq<u8>> { match first_
     pf.replace_all_re(r"pub\(crate\) ", "", "R4", "visibility")
     pf.ret("ret")
     pf.contracted = True
-    pf.props_all = ["C07"]
+    pf.props_all = ["C07", "C17"]
     pf.props_safety = ["C13"]
     str_shims(pf)
     pf.replace_all_re(r"(\w+)\.parse\(\)\.ok\(\)", r"shim_str_parse_usize(\1)", "R2", why="str::parse::<usize>().ok() behind a shim (abstract function of the bytes)")
@@ -119,6 +132,7 @@ pub open spec fn throwable_message(t: Seq<u8>) -> Option<Seq<u8>> { match first_
     if not m:
         raise AnchorLost("parse_frame: early return not found")
     pf.insert_at(m.end(), "\n    proof { axiom_str_boundaries(line); %s }" % ax_calls)
+    pf.body_start("proof { %s }\n" % ax_calls)
     mtr = re.search(r"let\s+(\w+)\s*=\s*\w+\.trim\(\)\s*;", pf.orig)
     msp = re.search(r"let\s+\((\w+),\s*(\w+)\)\s*=\s*(\w+)\.split_once\(':'\)\?;", pf.orig)
     mcm = re.search(r"let\s+\((\w+),\s*(\w+)\)\s*=\s*(\w+)\.rsplit_once\('\.'\)\?;", pf.orig)
@@ -137,6 +151,11 @@ pub open spec fn throwable_message(t: Seq<u8>) -> Option<Seq<u8>> { match first_
                     + t.subrange(digits_start(f), t.len() - 1) + seq![41u8]
             && spec_parse_usize(t.subrange(digits_start(f), t.len() - 1)) == Some(f.line)
         }),
+        /*@L:frame_line_is_accepted_iff_the_reference_parser_accepts_it:C07,C17*/ match ret {
+            Some(f) => f.file is Some && f.parameters is None
+                && frame_spec(spec_trim(sb(line))) == Some(FrameParts { class: sb(f.class), method: sb(f.method), file: sb(f.file->0), line: f.line }),
+            None => frame_spec(spec_trim(sb(line))) is None,
+        },
         /*@L:method_has_no_dot_class_and_method_no_paren_file_no_colon:C07*/ ret is Some ==> !sb(ret->0.method).contains(46u8) && !sb(ret->0.class).contains(40u8)
             && !sb(ret->0.method).contains(40u8) && !sb(ret->0.file->0).contains(58u8),
 """)
@@ -149,6 +168,7 @@ pub open spec fn osn(s: Seq<u8>) -> Seq<u8> { split_all(split_all(s, seq![46u8])
     for k, (srcf, qual) in enumerate((("src/mapper.rs", "mapper"), ("src/cache/mod.rs", "cache"))):
         sf = u.source(srcf)
         ec = sf.fn("extract_class_name")
+        ec.name = "extract_class_name_%s" % qual
         ec.ret("ret")
         ec.contracted = True
         ec.props_all = ["C01", "C02"]
